@@ -43,17 +43,6 @@ def classify(prop, f, tr, trace_text):
                 deleted_while_away = True
         if any(v > 1 for v in setups.values()) and deleted_while_away and sig == 'entity-sets-differ':
             return 'S11-reconnect-keeps-deleted'
-    if sig in ('not-quiescent', 'parents-differ', 'traffic-above-bound', 'child-not-listed-once'):
-        # S19: the same child re-parented twice (different parents) with no quiescent point in between
-        lastp = {}
-        for ev in tr['events']:
-            if ev[0] == 'quiescent':
-                lastp = {}
-            if ev[0] == 'op' and ev[2][0] == 'parent':
-                c, par = ev[2][1], ev[2][2]
-                if c in lastp and lastp[c] != par:
-                    return 'S19-reparent-pingpong'
-                lastp[c] = par
     if sig == 'skin-differs':
         # S13: a SkinnedMesh reached a joining client through the snapshot (mapper may precede its joints' spawns)
         setup_after_skin = False
@@ -69,23 +58,6 @@ def classify(prop, f, tr, trace_text):
         m = re.search(r'asset kind (\d+) id (\d+)', f['what'])
         key = (m.group(1), m.group(2)) if m else None
         pubs = [p for p, w in ops if w[0] == 'addasset' and (w[1], w[2]) == key]
-        if len(set(pubs)) > 1 and key[0] == '1':
-            # S12: request() returns when this peer's MESH cache holds the id: a mesh this peer serves is
-            # never fetched again when another peer re-publishes it
-            return 'S12-asset-republished-by-another-peer'
-        if len(pubs) > 1:
-            # S7: one handle token for several asset events: a receiver echoes the asset as its own
-            # publication, the echo is relayed, and (S12) the peers that served it ignore later updates.
-            # Fingerprint: somebody announced the id who never published it.
-            cls = {'1': 'mesh', '2': 'image', '3': 'audio'}.get(key[0])
-            for ev in tr['events']:
-                if ev[0] != 'frame':
-                    continue
-                for frm, m in ev[1].rcv:
-                    if cls and m[0] == 'asset' and m[1] == cls and m[2] == key[1] and m[3].isdigit() and int(m[3]) not in pubs:
-                        return 'S7-asset-echo-after-overwrite'
-                    if key[0] == '0' and m[0] == 'mat' and m[1] == key[1] and ev[1].peer == 0 and frm.isdigit() and int(frm) not in pubs:
-                        return 'S7-asset-echo-after-overwrite'
         if key is not None:
             # S23: the host relays live asset traffic of a class it has disabled, but leaves the class out
             # of the snapshot it sends to later joiners
